@@ -100,7 +100,8 @@ pub fn run(ctx: &Ctx) -> Outcome {
         let llong_sched = long_blocks(par_of(cfg)) * bs + bs / 2 + 1;
         let pre = dirty(llong + 2 * bs + 2);
         for (fam, dir, fe) in byte_frontends(cfg).into_iter().enumerate().filter(|(i, _)| Some(*i) == *which).map(|(_, f)| f) {
-            for (ivn, iv) in iv_variants(seed, bs).into_iter().skip(tier.pick(2, 1)) {
+            let iv_skip = if fam.starts_with("ctr") || fam == "belt" { 1 } else { tier.pick(2, 1) };
+            for (ivn, iv) in iv_variants(seed, bs).into_iter().skip(iv_skip) {
                 for (dn, data) in data_variants(seed, 0xC08, llong + 2 * bs + 2).into_iter().skip(tier.pick(2, 1)) {
                     let want = family_ref(cfg, &fam, dir, key, &iv, &data).0;
                     // (1) all compositions (with empty pieces) of short strings that straddle block boundaries
